@@ -53,7 +53,9 @@ def main():
                 if ob["status"] != "discharged" or a.v:
                     print("  %-10s %s  %s" % (ob["status"], ob["name"], (ob.get("detail") or "")[:160]))
     m = meta.META[a.prop]
-    return runner.finish(a.prop, a.tier, seed, m["level"], results, t0, a.repo,
+    from contracts import manifest_data
+    level = manifest_data.CHECKS.get(a.prop, {}).get("category", m["level"])      # evidence level = level claimed in MANIFEST.json
+    return runner.finish(a.prop, a.tier, seed, level, results, t0, a.repo,
                          functions_under_contract=meta.functions_with_hashes(a.repo, m["functions"]),
                          explanation=m["explanation"], trusted_base=m["trusted_base"], assumptions=m["assumptions"])
 
